@@ -573,17 +573,18 @@ where
         if start_index > ef.len() {
             panic!("Index out of bounds: {} > {}", start_index, ef.len());
         }
-        let bit_pos = unsafe { ef.high_bits.select_unchecked(start_index) };
-        let word_idx = bit_pos / (usize::BITS as usize);
-        let bits_to_clean = bit_pos % (usize::BITS as usize);
-
-        let window = if ef.high_bits.as_ref().is_empty() {
-            0
+        let (word_idx, window) = if start_index == ef.len() {
+            // The iterator is exhausted from the start: there is no one of
+            // rank `start_index` to select in the high bits.
+            (0, 0)
         } else {
+            let bit_pos = unsafe { ef.high_bits.select_unchecked(start_index) };
+            let word_idx = bit_pos / (usize::BITS as usize);
+            let bits_to_clean = bit_pos % (usize::BITS as usize);
             // get the word from the high bits
             let word = unsafe { *ef.high_bits.as_ref().get_unchecked(word_idx) };
             // clean off the bits that we don't care about
-            word & (usize::MAX << bits_to_clean)
+            (word_idx, word & (usize::MAX << bits_to_clean))
         };
 
         Self {
